@@ -84,7 +84,7 @@ pub(super) fn poll_connect(
 
     // First poll: auto-bind if needed, build the TCB, emit SYN.
     if !is_bound {
-        auto_bind(k, fd, domain, peer.ip())?;
+        auto_bind(k, fd, domain, peer)?;
     }
     let src = local_endpoint(k, fd);
     let isn = initial_sequence(k);
@@ -975,7 +975,8 @@ fn local_endpoint(k: &Kernel, fd: Fd) -> SocketAddr {
     SocketAddr::new(ip, bind.local_port)
 }
 
-fn auto_bind(k: &mut Kernel, fd: Fd, domain: Domain, dst: IpAddr) -> Result<()> {
+fn auto_bind(k: &mut Kernel, fd: Fd, domain: Domain, peer: SocketAddr) -> Result<()> {
+    let dst = peer.ip();
     let local_ip = if dst.is_loopback() {
         match dst {
             IpAddr::V4(_) => IpAddr::V4(Ipv4Addr::LOCALHOST),
@@ -988,10 +989,19 @@ fn auto_bind(k: &mut Kernel, fd: Fd, domain: Domain, dst: IpAddr) -> Result<()> 
             .find(|a| a.is_ipv4() == dst.is_ipv4())
             .ok_or_else(|| Error::from(ErrorKind::AddrNotAvailable))?
     };
-    let port = k
+    let mut port = k
         .sockets
         .allocate_port(domain, Type::Stream)
         .ok_or_else(|| Error::from(ErrorKind::AddrInUse))?;
+    // Never pick the destination itself as the source: the SYN would be
+    // demuxed to this very socket and dropped, and the connect would
+    // time out instead of reaching a listener or being refused.
+    if SocketAddr::new(local_ip, port) == peer {
+        port = k
+            .sockets
+            .allocate_port(domain, Type::Stream)
+            .ok_or_else(|| Error::from(ErrorKind::AddrInUse))?;
+    }
     let key = BindKey {
         domain,
         ty: Type::Stream,
